@@ -1134,9 +1134,12 @@ class ECDHKeyExchange(RawDHKeyExchange):
             raise TLSDecodeError("Empty point formats extension")
         if isinstance(private, ecdsa.keys.SigningKey):
             ecdh = ecdsa.ecdh.ECDH(curve=curve, private_key=private)
-            ecdh.load_received_public_key_bytes(peer_share,
-                                                valid_encodings=
-                                                valid_point_formats)
+            try:
+                ecdh.load_received_public_key_bytes(peer_share,
+                                                    valid_encodings=
+                                                    valid_point_formats)
+            except ecdsa.errors.MalformedPointError:
+                raise TLSIllegalParameterException("Invalid ECC point")
             return bytearray(ecdh.generate_sharedsecret_bytes())
         S = ecdhYc * private
 
